@@ -67,6 +67,12 @@ PROPS = {
     'C14': {'search': 'c14', 'scope': scope_funcs(modules={'stdnum.util'})},
     'C15': {'search': 'c15', 'scope': scope_funcs(names={'validate'})},
     'C16': {'search': 'c16', 'corr': ['gs1.py'], 'scope': scope_funcs(modules={'stdnum.gs1_128'})},
-    'C17': {'search': 'c17', 'scope': scope_funcs(names={'validate'})},
+    'C17': {'search': 'c17', 'scope': scope_funcs(names={'validate'}, modules={
+        'stdnum.isbn', 'stdnum.ean', 'stdnum.issn', 'stdnum.ismn', 'stdnum.imei', 'stdnum.isni', 'stdnum.iban', 'stdnum.lei',
+        'stdnum.iso11649', 'stdnum.grid', 'stdnum.isan', 'stdnum.meid', 'stdnum.at.uid', 'stdnum.ca.bn', 'stdnum.ca.sin', 'stdnum.de.idnr',
+        'stdnum.de.vat', 'stdnum.do.cedula', 'stdnum.es.cif', 'stdnum.eu.at_02', 'stdnum.fr.siren', 'stdnum.fr.siret', 'stdnum.gn.nifp',
+        'stdnum.gr.amka', 'stdnum.hr.oib', 'stdnum.id.npwp', 'stdnum.il.hp', 'stdnum.il.idnr', 'stdnum.in_.aadhaar', 'stdnum.in_.epic',
+        'stdnum.in_.gstin', 'stdnum.in_.vid', 'stdnum.it.iva', 'stdnum.ma.ice', 'stdnum.nl.btw', 'stdnum.no.kontonr', 'stdnum.rs.pib',
+        'stdnum.se.orgnr', 'stdnum.se.personnummer', 'stdnum.za.idnr', 'stdnum.za.tin'})},
     'C18': {'search': 'c18', 'corr': ['wsgi.py']},
 }
